@@ -3,7 +3,10 @@
 package node
 
 import (
+	"path/filepath"
+
 	"fmt"
+	"github.com/syndtr/goleveldb/leveldb"
 	"os"
 	"sync"
 	"time"
@@ -72,6 +75,7 @@ type Node struct {
 	Pillars  []pillar.Manager
 	Genesis  store.Genesis
 	ownDir   bool
+	consLdb  *leveldb.DB
 	stopped  bool
 	mu       sync.Mutex
 	Problems []string // errors swallowed by the broadcaster callbacks
@@ -129,7 +133,10 @@ func New(name string, o Options) (*Node, error) {
 	n.Genesis = genesis.NewGenesis(cfg)
 	n.Mgr = db.NewLevelDBManager(n.Dir)
 	n.Chain = chain.NewChain(n.Mgr, n.Genesis)
-	n.Cons = consensus.NewConsensus(db.NewMemDB(), n.Chain, true)
+	// as in zenon.NewZenon: the consensus database is a leveldb of its own next to the chain's, and survives a restart
+	cdb, cldb := db.NewLevelDB(filepath.Join(n.Dir, "consensus"))
+	n.consLdb = cldb
+	n.Cons = consensus.NewConsensus(cdb, n.Chain, true)
 	if err := n.Chain.Init(); err != nil {
 		return nil, err
 	}
@@ -165,6 +172,9 @@ func (n *Node) Stop() {
 	}
 	n.Cons.Stop()
 	n.Chain.Stop()
+	if n.consLdb != nil {
+		n.consLdb.Close()
+	}
 	if n.ownDir {
 		os.RemoveAll(n.Dir)
 	}
